@@ -43,6 +43,7 @@ package main
 
 //@ func cmd:import-setup
 //@   property C19 C11 C12
+//@   assert@before:Create called("ImportInsertionSetup") || called("ImportDeletionSetup")
 //@   let mode = cli.flagStr(context, "mode")
 //@   ensures result == nil ==> (mode == "insertion" || mode == "deletion")
 //@   assert@before:ImportInsertionSetup mode == "insertion" && treeDepth == cli.flagInt(context, "tree-depth") % 4294967296 && batchSize == cli.flagInt(context, "batch-size") % 4294967296
@@ -66,10 +67,12 @@ package main
 
 //@ func cmd:export-vk
 //@   property C15
+//@   assert@before:Create called("ReadSystemFromFile")
 //@   assert@before:ReadSystemFromFile arg0 == cli.flagStr(context, "keys-file")
 
 //@ func cmd:export-solidity
 //@   property C15
+//@   assert@before:Create called("ReadSystemFromFile")
 //@   assert@before:ReadSystemFromFile arg0 == cli.flagStr(context, "keys-file")
 
 // C14 / C15 — start: validate the mode, load the system, run, and after the interrupt request stop then await it
